@@ -302,7 +302,12 @@ func (g Gate) enforcesBool(h *ssa.Function, ri0 int) (bool, bool) {
 					bypass = true
 				}
 			} else if _, isConst := ret.Results[ri0].(*ssa.Const); !isConst {
-				bypass = true // computed answers: not decidable here
+				// a computed answer (`return a || b`): it must imply the check whenever it is val
+				if gg.impliedBy(ret.Results[ri0], val, h, 1) {
+					n++
+				} else {
+					bypass = true
+				}
 			}
 		}
 		if n > 0 && !bypass {
@@ -430,6 +435,29 @@ func (g Gate) impliedBy(v ssa.Value, truth bool, fn *ssa.Function, depth int) bo
 		} else {
 			ops = append(ops, e)
 		}
+	}
+	if have && pt == c && len(ops) > 0 {
+		// `x || y` being true (resp. `x && y` false): control came either along a
+		// short-circuit edge — which must itself be a pass edge of g — or through an
+		// operand that then has that truth and must imply g
+		edges, _ := g.PassEdges(fn)
+		for i, e := range phi.Edges {
+			pr := phi.Block().Preds[i]
+			if _, isC := BoolConst(e); isC {
+				okEdge := false
+				for si, s := range pr.Succs {
+					if s == phi.Block() && edges[Edge{pr, si}] {
+						okEdge = true
+					}
+				}
+				if !okEdge {
+					return false
+				}
+			} else if !g.impliedBy(e, pt, fn, depth+1) {
+				return false
+			}
+		}
+		return true
 	}
 	if !have || pt == c {
 		return false
@@ -1543,6 +1571,15 @@ func gatedInsideHelper(s ssa.Instruction, gates []Gate, depth int) bool {
 			}
 		}
 		if sites == 0 {
+			// not tested at this level: every real sink may still sit one level deeper,
+			// together with its check
+			all := len(exp.inner) > 0
+			for _, in := range exp.inner {
+				if !gatedInsideHelper(in, gates, depth+1) {
+					all = false
+				}
+			}
+			held = all
 			return
 		}
 		for e := range ErrorExitEdges(exp.h) {
